@@ -1,11 +1,11 @@
 package main
 
 import (
-	"io"
 	"bufio"
 	"bytes"
 	"encoding/binary"
 	"fmt"
+	"io"
 	"math/rand"
 	"os"
 	"strings"
@@ -777,7 +777,7 @@ func c17Case(c *ctx, kind string, data []byte, want [][]byte, ntags int) {
 	checkICCSources(c, "C17", data)
 	impl := implDesc(data)
 	for name, mk := range map[string]func([]byte) *bufio.Reader{
-		"bufio.Reader": func(b []byte) *bufio.Reader { return bufio.NewReader(bytes.NewReader(b)) },
+		"bufio.Reader":                func(b []byte) *bufio.Reader { return bufio.NewReader(bytes.NewReader(b)) },
 		"bufio(64) over 7-byte reads": func(b []byte) *bufio.Reader { return bufio.NewReaderSize(&dribble{bytes.NewReader(b), 7}, 64) },
 	} {
 		if via := implDescVia(data, mk); via != impl && !(strings.HasPrefix(via, "ok") && strings.HasPrefix(impl, "ok") && want != nil && len(want) > 1) {
